@@ -101,7 +101,145 @@ func installPoolSink() {
 		// issue lists and issue maps live in two pools; both are "errs" objects with ids from one counter
 		id := pt.objID(k, obj)
 		pt.events = append(pt.events, poolEvent{E: kind, K: k, ID: id, G: g})
+		gt := gates[g]
 		pt.mu.Unlock()
+		// gated schedules: the goroutine stops at its n-th pool operation until the scheduler lets it go on
+		if gt != nil {
+			gt.count++
+			if gt.count == gt.at {
+				gt.paused <- struct{}{}
+				<-gt.resume
+			}
+		}
+	}
+}
+
+// ---- gated schedules (C08): two calls overlap at chosen pool operations ----------------------------------------
+// The hook at every sync.Pool Get/Put site doubles as a scheduler gate: goroutine A runs until its k-th pool operation,
+// goroutine B then runs until its m-th (or to completion), A finishes, B finishes. Enumerating k and m places the
+// switch points at EVERY pool-operation boundary of both calls: the interleavings with at most two preemptions.
+type gate struct {
+	at, count      int
+	paused, resume chan struct{}
+}
+
+var gates = map[int]*gate{}
+
+type gatedResult struct {
+	out  callOut
+	perr string
+}
+
+func runGated(kA, kB string, k, m int, tok string) (ra, rb gatedResult, evA, evB int) {
+	ga := &gate{at: k, paused: make(chan struct{}), resume: make(chan struct{})}
+	gb := &gate{at: m, paused: make(chan struct{}), resume: make(chan struct{})}
+	doneA, doneB := make(chan struct{}), make(chan struct{})
+	reg := func(id int, gt *gate) {
+		pt.mu.Lock()
+		pt.gids[goid()] = id
+		gates[id] = gt
+		pt.mu.Unlock()
+	}
+	start := func(id int, gt *gate, kind string, res *gatedResult, done chan struct{}) {
+		go func() {
+			defer close(done)
+			reg(id, gt)
+			if gt.at == 0 {
+				gt.paused <- struct{}{}
+				<-gt.resume
+			}
+			o, perr := safeCall(kind, tok)
+			*res = gatedResult{o, perr}
+			if perr == "" {
+				pt.ret(o.issues)
+			}
+		}()
+	}
+	wait := func(gt *gate, done chan struct{}) bool { // true: paused, false: finished
+		select {
+		case <-gt.paused:
+			return true
+		case <-done:
+			return false
+		}
+	}
+	start(1, ga, kA, &ra, doneA)
+	pa := wait(ga, doneA)
+	start(2, gb, kB, &rb, doneB)
+	pb := wait(gb, doneB)
+	if pa {
+		ga.resume <- struct{}{}
+		<-doneA
+	}
+	if pb {
+		gb.resume <- struct{}{}
+		<-doneB
+	}
+	pt.mu.Lock()
+	delete(gates, 1)
+	delete(gates, 2)
+	pt.mu.Unlock()
+	return ra, rb, ga.count, gb.count
+}
+
+var gatedKinds = []string{"plain", "ctxval", "probectx", "fail1", "fmtopt", "fail2", "coerce", "custom", "catch", "badjson", "nulljson", "vslice", "freshfail", "pterr"}
+
+func gatedEpisodes(r *rand.Rand, maxPairs int, stats map[string]int, distinct map[string]bool, samples *[]string) {
+	pairs := [][2]string{}
+	for _, a := range gatedKinds {
+		for _, b := range gatedKinds {
+			pairs = append(pairs, [2]string{a, b})
+		}
+	}
+	r.Shuffle(len(pairs), func(i, j int) { pairs[i], pairs[j] = pairs[j], pairs[i] })
+	if maxPairs > 0 && maxPairs < len(pairs) {
+		pairs = pairs[:maxPairs]
+	}
+	ep := 0
+	for _, pr := range pairs {
+		// how many pool operations each call performs when it runs alone
+		zi.ClearPools()
+		epFresh = newFresh()
+		pt.gids = map[int64]int{}
+		mark := len(pt.events)
+		pt.reset("measure")
+		pt.on = true
+		_, _, nA, nB := runGated(pr[0], pr[1], 1<<30, 1<<30, "tok")
+		pt.on = false
+		pt.events = pt.events[:mark] // the measuring run is not part of the trace
+		for k := 0; k <= nA; k++ {
+			for _, m := range []int{1 << 30, 0, 1 + r.Intn(nB+1), 1 + r.Intn(nB+1)} {
+				if k == nA && m != 1<<30 {
+					continue
+				}
+				zi.ClearPools()
+				epFresh = newFresh()
+				pt.gids = map[int64]int{}
+				id := fmt.Sprintf("g%d", ep)
+				ep++
+				pt.on = true
+				pt.reset(id)
+				ra, rb, _, _ := runGated(pr[0], pr[1], k, m, "tok-"+id)
+				for gi, res := range []gatedResult{ra, rb} {
+					kind := pr[gi]
+					same := res.perr == "" && res.out.proj == baseline[kind]
+					ev := poolEvent{E: "probe", Kind: kind, G: gi + 1, Same: &same}
+					if !same {
+						ev.Diff = fmt.Sprintf("gated schedule %s|%s switch at A:%d B:%d: got %s %s want %s", pr[0], pr[1], k, m, res.out.proj, res.perr, baseline[kind])
+					}
+					pt.mu.Lock()
+					pt.events = append(pt.events, ev)
+					pt.mu.Unlock()
+				}
+				pt.on = false
+				stats["episodes"]++
+				stats["probes"] += 2
+				distinct[fmt.Sprint(pr, k, m)] = true
+				if len(*samples) < 3 {
+					*samples = append(*samples, fmt.Sprintf("gated %s|%s A pauses at op %d, B at %d", pr[0], pr[1], k, m))
+				}
+			}
+		}
 	}
 }
 
@@ -404,6 +542,7 @@ func cmdPools(args []string) {
 	conc := fs.Int("concurrent", 0, "number of goroutines for concurrent episodes (0 = sequential histories)")
 	episodes := fs.Int("episodes", 50, "concurrent episodes")
 	calls := fs.Int("calls", 3, "calls per goroutine in a concurrent episode")
+	gated := fs.Int("gated", -1, "gated two-call schedules: number of call-kind pairs (0 = all, -1 = off)")
 	fs.Parse(args)
 	installPoolSink()
 	debug.SetGCPercent(-1) // no pooled object is dropped or re-allocated at a recycled address while we trace
@@ -436,7 +575,9 @@ func cmdPools(args []string) {
 	stats := map[string]int{}
 	samples := []string{}
 	distinct := map[string]bool{}
-	if *conc == 0 {
+	if *gated >= 0 {
+		gatedEpisodes(r, *gated, stats, distinct, &samples)
+	} else if *conc == 0 {
 		for hi, h := range hs {
 			zi.ClearPools()
 			epFresh = newFresh()
